@@ -54,11 +54,37 @@ class CaseSpec:
                 keep = [k for k, l in enumerate(cs.lines) if l.startswith('type ')]
                 cs.lines = [cs.lines[k] for k in keep] + lines
                 cs.meta = [cs.meta[k] for k in keep] + [rp['detail'].get('meta', {'kind': 'case'})] * len(lines)
-        impl = run_harness(cs.lines)
+        # the implementation may abort (allocator / sanitizer-style checks, double free, ...): the line it died
+        # on is a failing input of its own; the run is resumed after it (at most 8 times)
+        impl, start, crashes = [], 0, []
+        header = [l for l in cs.lines if l.split(' ')[0] in ('type', 'stype')]
+        while True:
+            chunk = cs.lines[start:]
+            out = run_harness((header if start else []) + chunk)
+            if start:
+                out = out[len(header):]
+            if out and out[-1].startswith('<died'):
+                k = start + len(out) - 1          # the line being processed when the process died
+                impl.extend(out[:-1])
+                impl.append('<crashed %s>' % out[-1][6:80])
+                crashes.append((k, out[-1]))
+                start = k + 1
+                if len(crashes) >= 8 or start >= len(cs.lines):
+                    break
+            else:
+                impl.extend(out)
+                break
         model = run_model(names, cs.lines)
         n = len(cs.lines)
+        for k, msg in crashes:
+            meta = cs.meta[k]
+            ti = meta.get('ti')
+            rust = u.types[ti].rust() if ti is not None and ti < len(u.types) else ''
+            failures.append(({'op': meta.get('family', meta.get('kind')), 'type_shape': '', 'rust_type': rust, 'outcome': 'crash', 'clause': 'crash'},
+                             {'line': cs.lines[k], 'rust_type': rust, 'why': 'crash: the implementation aborted the process on this input (%s)' % msg[:120],
+                              'lines': [cs.lines[k]], 'meta': _clean(meta)}))
         died = None
-        if len(impl) != n:
+        if len(impl) != n and not crashes:
             died = ('impl', impl[-1] if impl else '')
         if len(model) != n:
             died = ('model', model[-1] if model else '')
@@ -73,8 +99,10 @@ class CaseSpec:
         ctx = {'u': u, 'prop': prop}
         for k in range(min(len(impl), len(model), n)):
             meta, line, ia, ma = cs.meta[k], cs.lines[k], impl[k], model[k]
-            if ia.startswith('<died') or ma.startswith('<died'):
+            if ma.startswith('<died'):
                 break
+            if ia.startswith('<crashed') or ia.startswith('<died'):
+                continue
             ti = meta.get('ti')
             tterm = u.types[ti].term() if ti is not None and ti < len(u.types) else ''
             rust = u.types[ti].rust() if ti is not None and ti < len(u.types) else ''
@@ -300,6 +328,15 @@ def o_c19(meta, ans, ctx):
 
 def o_c03(meta, ans, ctx):
     k = meta.get('kind')
+    if k == 'case' and meta.get('family') == 'placement':
+        # whatever the placement, a returned value never holds a reference off its unit
+        a = parse_case_answer(ans)
+        if a is None or a['E']['status'] != 'ok':
+            return None
+        bad = [(o, u_) for (o, u_) in meta.get('blocks', []) if (meta['r'] + o) % u_ != 0]
+        if bad:
+            return 'aligned: a value was returned although the block at offset %d (unit %d) is misplaced' % bad[0]
+        return None
     if k == 'case':
         a = parse_case_answer(ans)
         if a is None or a['S']['status'] != 'ok' or a['E']['status'] != 'ok':
@@ -358,6 +395,38 @@ def o_c06(meta, ans, ctx):
         return None
     if k == 'case':
         return o_c01(meta, ans, ctx)
+    return None
+
+
+def o_c08(meta, ans, ctx):
+    if meta.get('kind') != 'load':
+        return None
+    p = ans.split(' ')
+    if p[0] != 'load': return 'shape: ' + ans[:60]
+    if p[1] != 'ok': return 'load: %s of a stored value failed (%s)' % (meta['loader'], ' '.join(p[1:3])[:40])
+    kv = dict(t.split('=', 1) for t in p[3:] if '=' in t)
+    if erase_borrows(p[2]) != meta['val']: return 'value: the loaded structure differs from the stored value'
+    if kv.get('store') != 'true': return 'store: the stored file has a different length than the serialized bytes'
+    file_len = len(kv.get('file', '')) // 2
+    # the file must hold the serialized bytes (compared with the model through the masked comparison)
+    l = meta['loader']
+    region = int(kv.get('region', '0'))
+    if l == 'mem':
+        if region % 64 or region < file_len or region >= file_len + 64: return 'region: heap region of %d bytes for a file of %d' % (region, file_len)
+    if l == 'mmap':
+        if region % 16 or region < file_len or region >= file_len + 16: return 'region: mapping of %d bytes for a file of %d' % (region, file_len)
+    if l == 'map' and region != file_len: return 'region: mapping of %d bytes for a file of %d' % (region, file_len)
+    if l != 'full':
+        if kv.get('basemod') != '0': return 'base: backing region not aligned to 64'
+        if kv.get('tailzero') != 'true': return 'tail: the region is not zero-filled after the end of the file'
+        for kind, off in borrows_of(p[2]):
+            if off == '-':
+                if kind != 'ref': return 'in-region: a borrowed %s does not point into the backing region' % kind
+            elif int(off) > file_len: return 'in-region: a borrowed part starts beyond the file'
+    if kv.get('moved') != 'true': return 'moved: contents changed after moving / boxing / reading from other threads'
+    f = meta['flags']
+    exp = (128 if f & 1 else 0) + (256 if f & 2 else 0) + (512 if f & 4 else 0)
+    if kv.get('mflags') != str(exp): return 'flags: flag set %d translated to %s' % (f, kv.get('mflags'))
     return None
 
 
@@ -528,6 +597,7 @@ SPECS = {
     'C12': CaseSpec(o_c12, 'every base residue 0..127 (all for half of the types with aligned blocks in the quick tier, 16 residues for the rest) x generated values; block list taken from the real schema.'),
     'C03': CaseSpec(o_c03, 'offsets of every borrowed part of real ε-copy results (pointer minus buffer start, printed by Show on the ε types) against the offsets of the writer blocks in the model; allocator calls and bytes during deserialize_eps for each value and for the same value with every borrowed payload repeated x4 and x16 (x2, x8, x64 thorough).'),
     'C06': CaseSpec(o_c06, 'golden corpus (147 files written by the build at claim time for the fixed corpus universe): re-serialization must reproduce the stored bytes, both deserializers must return the stored value, hash words must be the stored ones; plus bytes / hash feeds / digests of every generated type and value against the independent Lean encoder and XXH3 port.'),
+    'C08': CaseSpec(o_c08, 'store + load_full / load_mem / load_mmap / mmap of generated values (all 8 flag sets for a quarter of the cases in the quick tier), file lengths of every residue modulo 64 (32 in the quick tier), region range through the hook, tail bytes read back, the case moved, boxed, read from 4 threads and sent to another thread.'),
     'C18': CaseSpec(o_c18, 'serialize_with_schema of every generated value: bytes versus the plain writer, rows versus the model forest, pre-order / tiling / in-stream / zero padding / alignment invariants on the real rows, to_csv and debug under catch_unwind.'),
     'C13': CaseSpec(o_c13, 'failure at every position k in [0,len] (all k for a fifth of the types in the quick tier, boundary and sampled k for the rest) with random per-call caps and Interrupted patterns, splitting/retrying writers, flush failure, BufWriter over /dev/full; slice references and structures holding them with the allocator protecting the borrowed buffer.'),
     'C14': CaseSpec(o_c14, '10 fragmentation patterns (1-byte, prime-sized, mixed, pseudo-random, with Interrupted, through BufReader) and failure (error or end of file) at positions k in [0,len) for generated values.'),
